@@ -15,6 +15,7 @@ require (
 )
 
 require (
+	golang.org/x/mod v0.22.0
 	golang.org/x/net v0.38.0 // indirect
 	golang.org/x/sys v0.31.0 // indirect
 	golang.org/x/text v0.23.0 // indirect
